@@ -423,7 +423,12 @@ func (x *Exec) mapComps(T *types.Map) (hasKey, hasSort, valKey, valSort string) 
 	ks, vs := x.te.SortOf(T.Key()), x.te.SortOf(T.Elem())
 	// components are per Go key/element type (not per sort): maps of
 	// different Go types can never alias
-	n := sanitize(canonTypeName(T.Key())) + "__" + sanitize(canonTypeName(T.Elem()))
+	// (an injective rendering: "[]string" and "string" must not collide)
+	enc := func(t types.Type) string {
+		r := strings.NewReplacer("[]", "Sl_", "*", "P_", "map[", "Map_", "]", "_", "[", "Arr")
+		return sanitize(r.Replace(canonTypeName(t)))
+	}
+	n := enc(T.Key()) + "__" + enc(T.Elem())
 	if isRefType(T.Elem()) {
 		x.markRefComp("Mval_"+n, ks)
 	}
@@ -660,7 +665,7 @@ func (x *Exec) load(st *State, l *Loc, T types.Type) Val {
 		v := Val{T: t, Typ: T, Org: "global:" + l.Global.Pkg.Pkg.Name() + "." + l.Global.Name()}
 		x.loadFacts(st, v)
 		if gn := l.Global.Name(); t.Sort == "Iface" && !x.L.isRepoPkg(l.Global.Pkg.Pkg) && x.L.immutableGlobal[key] &&
-			(gn == "EOF" || strings.HasPrefix(gn, "Err") || gn == "Canceled" || gn == "DeadlineExceeded") {
+			(gn == "EOF" || strings.HasPrefix(gn, "Err") || gn == "Canceled" || gn == "DeadlineExceeded" || gn == "DefaultTransport") {
 			// a sentinel error of the standard library: a non-nil value made
 			// once at start-up (so different from any error made later)
 			st.assume(Not(Eq(t, NilIface)))
@@ -1213,6 +1218,23 @@ func (x *Exec) mapUpdate(fr *Frame, st *State, in *ssa.MapUpdate) {
 	has := x.heapGet(st, hk, hs)
 	val := x.heapGet(st, vk, vs)
 	x.mapLockCheck(st, m, "write")
+	if x.ctr != nil && x.ctr.HasMod && fr.isEntry {
+		for _, mm := range x.ctr.Modifies {
+			x.registerMapItem(mm, x.pkgOf(fr.fn))
+		}
+		if !x.frameAllows(hk) && st.ghost["fresh:"+m.T.S].S != "true" {
+			hasMapItem := false
+			for _, mm := range x.ctr.Modifies {
+				if strings.HasPrefix(mm, "map:") {
+					hasMapItem = true
+				}
+			}
+			if hasMapItem {
+				// (map contents are framed only where the contract names map items at all)
+				x.oblige(st, "FRAME", fmt.Sprintf("frame(map update at %s)", x.posText(in.Pos())), x.isFresh(st, m.T), "update of a map outside the declared modifies clause")
+			}
+		}
+	}
 	kt := x.termOf(st, &k)
 	st.heap[hk] = Store(has, m.T, Store(Select(has, m.T), kt, True))
 	st.heap[vk] = Store(val, m.T, Store(Select(val, m.T), kt, x.termOf(st, &v)))
